@@ -1,6 +1,7 @@
 import Apko.Model.Conflict
 import Apko.Generated.Conflict
 import Apko.Proofs.Lemmas.Conflict
+import Apko.Proofs.Lemmas.ConflictSort
 /-!
 # C07 — file conflicts follow the replaces/origin rules; the installed db tells the truth
 
@@ -182,6 +183,61 @@ theorem writeHeaderFile_refines (c : FS.Cfg) (fs : FS.FS) (h : FS.Hdr) (sum : Te
     · simp [h1, h2]
     · by_cases h3 : got.pkgName ∈ h.pkgReplaces <;> by_cases h4 : got.pkgOrigin = h.pkgOrigin <;>
         simp [h1, h2, h3, h4]
+
+/-! ## sortTarHeaders_parent_adjacent -/
+
+/-- **sortTarHeaders_parent_adjacent**: in what `sortTarHeaders` returns, every file header follows
+the header of its own directory with only files of that directory in between (`Adj`, the scan
+`ParseInstalled` performs: an `R:` line is joined to the last `F:` line), so full paths are
+reconstructed.  (What the function *loses* is F07a, witness corpus/conflict/F07a.json: `mergeSort` is
+defined by well-founded recursion, so the kernel cannot evaluate a literal witness by `decide`.) -/
+theorem sortTarHeaders_parent_adjacent (hs out : List Formats.FileRec) (h : Formats.sortHeaders hs = some out) :
+    Adj ['.'] out := by
+  unfold Formats.sortHeaders at h
+  refine sortChildren_adj hs _ ['.'] _ out ?_ h
+  intro n hn
+  have := (List.mem_filter.1 (mem_sortTexts.1 hn)).2
+  simpa using this
+
+/-! ## idb_truth: the pruning leaves exactly the owner as recorder -/
+
+/-- a header whose name has an owner in `installedFiles` survives the pruning only in the owner's list -/
+theorem prune_owner_only (inst : List (Text × Nat)) (i j : Nat) (files : List Entry) (e : Entry)
+    (he : e ∈ prune inst i files) (ho : inst.lookup e.name = some j) : i = j := by
+  unfold prune at he
+  have := (List.mem_filter.1 he).2
+  simp only [ho] at this
+  exact (beq_iff_eq.1 this).symm
+
+theorem prune_keeps_owner (inst : List (Text × Nat)) (i : Nat) (files : List Entry) (e : Entry)
+    (he : e ∈ files) (ho : inst.lookup e.name = some i) : e ∈ prune inst i files := by
+  unfold prune
+  exact List.mem_filter.2 ⟨he, by simp [ho]⟩
+
+/-- headers nobody is recorded for (directories, symlinks, files kept because identical to a base
+file) stay in every list ("Keep directories, which actually should be duplicated in the idb") -/
+theorem prune_keeps_untracked (inst : List (Text × Nat)) (i : Nat) (files : List Entry) (e : Entry)
+    (he : e ∈ files) (ho : inst.lookup e.name = none) : e ∈ prune inst i files := by
+  unfold prune
+  exact List.mem_filter.2 ⟨he, by simp [ho]⟩
+
+theorem recordAll_getElem? (inst : List (Text × Nat)) (all : List (List Entry)) (i : Nat) :
+    (recordAll inst all)[i]? = (all[i]?).map (prune inst i) := by
+  unfold recordAll
+  simp [List.getElem?_map, List.getElem?_zipIdx]
+  cases all[i]? <;> simp
+
+/-- **idb_unique**: after the pruning a name that `installedFiles` knows is recorded under at most
+one package — its owner — and the owner does record it (if `sortTarHeaders` keeps it: F07a) -/
+theorem idb_unique (inst : List (Text × Nat)) (all : List (List Entry)) (i j : Nat) (rec : List Entry) (e : Entry)
+    (hr : (recordAll inst all)[i]? = some rec) (he : e ∈ rec) (ho : inst.lookup e.name = some j) : i = j := by
+  rw [recordAll_getElem?] at hr
+  cases ha : all[i]? with
+  | none => simp [ha] at hr
+  | some files =>
+    simp only [ha, Option.map_some, Option.some.injEq] at hr
+    subst hr
+    exact prune_owner_only inst i j files e he ho
 
 /-! ## ties: the statement lists the model mirrors (regenerated from /repo on every run) -/
 
